@@ -12,6 +12,7 @@ CHECKS = {
  "C16": ("CAT/MR pairings, 2-D and 3-D, missing category of every dimension at every payload position: column index = 100 x column proportion / (members of the row element over respondents eligible for it, any column answer), NaN on subtotals", "4/C16"),
  "C15": ("sum responses (CAT x CAT, CAT x MR, MR x CAT, numeric-array x CAT, strands; empty cells as 0 and as NaN) x plain subtotals on rows/columns/both: every share = respondent-level sum / base-row, base-column or base-table total, block by block; base cells add up to 1", "4/C15"),
  "C14": ("(data set, one of all 125 assignments of {none,-1,0,1,2.5} to three categories, subtotal config) states on CAT x valued, valued x CAT, MR pairings, weighted, strands: scale mean / population sd / expanded-respondent median / std-err (sd over sqrt of the weighted margin), None-ness, NaN for vectors without valued respondents, overall margins", "4/C14"),
+ "C17": ("(data set, insertion config incl. differences, 13 filter-statistics shapes, population in {None,0,1,1000}) states over CAT / CAT_DATE (rows, columns, both, neither) / MR slices and strands: fraction cascade, estimate = population proportion x population x fraction, MoE = 1.959964 x population x fraction x respondent-level std-err, NaN for differences", "4/C17"),
  "C01": ("every multiset of <=N respondents over each schema's answer-profile alphabet is tabulated into a server payload and the real Cube/partition outputs are compared cell by cell with a respondent-loop oracle; covers all type pairings, missing-category positions, 1-D/2-D/3-D, weighted, numeric and numeric-array responses", "4/C01"),
 }
 PENDING = {}
